@@ -333,7 +333,14 @@ class Normaliser:
         left = self.norm(e.left)
         for op, right in zip(e.ops, e.comparators):
             r = self.norm(right)
-            parts.append(cmp(type(op).__name__, left, r))
+            # x in range(a, b)  ==  a <= x < b   (the code base tests integer counts this way; step 1 only)
+            if isinstance(op, (ast.In, ast.NotIn)) and r[0] == 'call' and r[1] == 'range' and not r[3] and len(r[2]) in (1, 2) \
+                    and left[0] in ('call', 'lin', 'num', 'name', 'sub', 'self', 'attr', 'selfv'):
+                lo, hi = (num(0), r[2][0]) if len(r[2]) == 1 else r[2]
+                inside = mk_bool('and', [cmp('LtE', lo, left), cmp('Lt', left, hi)])
+                parts.append(inside if isinstance(op, ast.In) else mk_not(inside))
+            else:
+                parts.append(cmp(type(op).__name__, left, r))
             left = r
         return mk_bool('and', parts)
 
